@@ -333,6 +333,11 @@ def build_kwargs(problem, cfg, trace, hooks=None, checkpoint=None, x0=None):
                     xk[:] = np.nan  # the user recycles the iterate array it was handed
                 except (ValueError, TypeError):
                     pass
+                for fld in ("x", "jac"):
+                    try:
+                        getattr(state, fld)[:] = np.nan  # ... and the arrays of the state it was handed (they are the user's to keep or to overwrite)
+                    except (ValueError, TypeError, AttributeError):
+                        pass
             return False
 
         kw["callback"] = callback
